@@ -30,8 +30,39 @@ def _alarm(signum, frame):
     raise _Timeout()
 
 
+_POLLUTED = False
+
+
+def pollute_other_objects():
+    """once per process: another, unrelated CPDAG object marks triples as unfaithful and is then closed.
+    State of one graph object must never leak into another (class-level dicts, module-level memo tables)."""
+    global _POLLUTED
+    if _POLLUTED:
+        return
+    _POLLUTED = True
+    try:
+        from pywhy_graphs import CPDAG
+        from pywhy_graphs.algorithms import pag as pagmod
+        for fam in C.Labels.FAMILIES:
+            lab = C.Labels(fam)
+            H = CPDAG()
+            for v in range(6):
+                H.add_node(lab(v))
+            for a in range(6):
+                for b in range(6):
+                    for c in range(6):
+                        if len({a, b, c}) == 3:
+                            H.mark_unfaithful_triple(lab(a), lab(b), lab(c))
+            H.add_edge(lab(0), lab(1), "directed")
+            H.add_edge(lab(1), lab(2), "undirected")
+            pagmod._apply_meek_rules(H)
+    except Exception:
+        pass
+
+
 def build_cpdag(g, lab):
     from pywhy_graphs import CPDAG
+    pollute_other_objects()
     G = CPDAG()
     for v in C.g_nodes(g):
         G.add_node(lab(v))
@@ -59,6 +90,30 @@ def run_impl(pdag, fam="int", rule=None, i=None, j=None):
     old = signal.signal(signal.SIGALRM, _alarm)
     signal.setitimer(signal.ITIMER_REAL, TIMEOUT_S)
     try:
+        if rule is None and C.warm_decide({"g": pdag, "fam": fam}, 4) and pdag["U"]:
+            # the same CPDAG object is closed, emptied, refilled with the real input and closed again
+            # (count-validated memo tables keyed by the object survive clear_edges + refill)
+            try:
+                alt = {"n": pdag["n"], "D": [list(e) for e in pdag["D"]], "U": [list(e) for e in pdag["U"]]}
+                a0, b0 = alt["U"][0]
+                others = [w for w in C.g_nodes(pdag) if w not in (a0, b0)
+                          and [a0, w] not in alt["U"] and [w, a0] not in alt["U"]
+                          and [a0, w] not in alt["D"] and [w, a0] not in alt["D"]]
+                if others:
+                    alt["U"][0] = [a0, others[0]]
+                G.clear_edges()
+                for a, b in alt["D"]:
+                    G.add_edge(lab(a), lab(b), "directed")
+                for a, b in alt["U"]:
+                    G.add_edge(lab(a), lab(b), "undirected")
+                pagmod._apply_meek_rules(G)
+            except Exception:
+                pass
+            G.clear_edges()
+            for a, b in pdag["D"]:
+                G.add_edge(lab(a), lab(b), "directed")
+            for a, b in pdag["U"]:
+                G.add_edge(lab(a), lab(b), "undirected")
         if rule is None:
             pagmod._apply_meek_rules(G)
             pre = ""
